@@ -478,32 +478,44 @@ def r154_155(ctx, rep):
         rep.held('R15.5', r, 'load until EOFError', '', loads[0])
     else:
         rep.violated('R15.5', r, 'load until EOFError', 'the reader must call pickle.load(f) in a loop until EOFError', r.node)
-    # json lines: one newline per record -- in the `lines` branch the loop over the records ends each pass with a write of '\n'
-    from ..ladder import paths
-    wo = ctx.project.need_fn('petl.io.json:_writeobj')
+    # json lines: one newline per record -- the loop over the records (the one that contains the loop over
+    # encoder.iterencode(<record>)) ends each pass by emitting '\n'; an emission is a sink write or, in a generator of
+    # text chunks that the writer copies to the sink, a yield
+    from ..ladder import resolve
+    jm = ctx.project.modules.get('petl.io.json')
+    if jm is None:
+        raise AnalysisError('anchor vanished: petl.io.json')
+    allfns = dict(getattr(jm, 'inlined_away', {}))
+    allfns.update(jm.functions)
+
+    def emission(x):
+        if isinstance(x, ast.Expr) and isinstance(x.value, ast.Call) and norm(x.value.func).endswith('.write') and x.value.args:
+            return x.value.args[0]
+        if isinstance(x, ast.Expr) and isinstance(x.value, ast.Yield) and x.value.value is not None:
+            return x.value.value
+        return None
     verdict = None
-    for pth in paths(wo.node.body, {'lines': True}):
-        for st in pth.effects:
-            if isinstance(st, ast.For) and not ('iterencode' in norm(st.iter)):
-                # the record loop: the last sink write of a pass writes the newline
-                writes = []
-                for x in st.body:
-                    if isinstance(x, ast.Expr) and isinstance(x.value, ast.Call) and norm(x.value.func).endswith('.write'):
-                        writes.append(x)
-                from ..ladder import resolve
-                if writes and writes[-1] is st.body[-1]:
-                    before = st.body[:st.body.index(writes[-1])]
-                    arg = resolve(writes[-1].value.args[0], before) if writes[-1].value.args else None
-                    good = arg is not None and isinstance(arg, ast.Constant) and arg.value == '\n'
-                    verdict = 'held' if good else 'violated'
-                elif any(isinstance(x, ast.Call) and norm(x.func).endswith('.write') for b2 in st.body for x in ast.walk(b2)):
+    wo = None
+    for f in allfns.values():
+        for st in ast.walk(f.node):
+            if isinstance(st, ast.For) and 'iterencode' not in norm(st.iter) and \
+                    any(isinstance(y, ast.For) and 'iterencode' in norm(y.iter) for b2 in st.body for y in ast.walk(b2)):
+                wo = f
+                ems = [x for x in st.body if emission(x) is not None]
+                if ems and ems[-1] is st.body[-1]:
+                    before = st.body[:st.body.index(ems[-1])]
+                    arg = resolve(emission(ems[-1]), before)
+                    good = isinstance(arg, ast.Constant) and arg.value == '\n'
+                    verdict = 'held' if good and verdict in (None, 'held') else 'violated'
+                else:
                     verdict = 'violated'        # the loop writes the record but does not end the pass with the newline
+    where = wo if wo is not None else (jm.name, '*')
     if verdict == 'held':
-        rep.held('R15.5', wo, "f.write('\\n') per record", '', wo.node)
+        rep.held('R15.5', where, "f.write('\\n') per record", '', wo.node)
     elif verdict is None:
-        rep.undecided('R15.5', wo, "f.write('\\n') per record", 'record loop of the json lines branch not recognised', wo.node)
+        rep.undecided('R15.5', where, "f.write('\\n') per record", 'record loop of the json lines branch not recognised', None)
     else:
-        rep.violated('R15.5', wo, "f.write('\\n') per record", 'json lines records must each be terminated by one newline', wo.node)
+        rep.violated('R15.5', where, "f.write('\\n') per record", 'json lines records must each be terminated by one newline', wo.node)
 
 
 # ------------------------------------------------------------------------ R15.6
